@@ -1,5 +1,6 @@
 import FitProps.ActivityLemmas
 import FitProps.ActivityLeakLemmas
+import FitProps.ActivityAccLemmas
 import FitModel.Aggregator
 /-!
 # C20 — fitactivity: conceal hides the stretch; remove/reduce/combine conserve the rest
@@ -285,14 +286,36 @@ theorem C20_combine_sort (fs : List (List Message)) :
     ∀ k, (sortByCreation fs).filter (fun x => timeCreated x == k) = fs.filter (fun x => timeCreated x == k) :=
   ⟨sortByCreation_perm fs, sortByCreation_sorted fs, fun k => sortByCreation_stable k fs⟩
 
-/-- the full statement about accumulated quantities: the body is exactly `expectedBody` — every accumulable value of a
-later file is its input value plus the last values of the same quantity in the earlier files (closed form,
-`FitModel/ActivitySpec.lean`). Evaluated on the implementation by the property predicate of family `activity` and tied
-to the model by the correspondence; not yet proved as a theorem about the model's accumulator (what is missing: the
-invariant "the entry of a key holds Σ of the last values of the earlier files" through `accMesgs`). -/
-def C20_combine_accumulate_full : Prop :=
-  ∀ (fits : List (List Message)) (body : List Message) (tr : List Trailer),
-    combine fits = .ok body tr → expectedBody fits = some body
+/-- **Combining continues the accumulated quantities across the file boundaries without loss.** Whenever `Combine`
+succeeds, the body of the result is exactly `expectedBody` (FitModel/ActivitySpec.lean): every message of every input
+in creation-time order, and the value of every valid accumulable field (distance, accumulated power, cycles, … — any
+(message number, field number), scalar or array, every integer type) of a later file is its input value plus the LAST
+value of the same quantity in each earlier file that has it, `out = in + Σ last values of the earlier files`
+(`continueAcc`: a left fold of `sumValue` over the earlier files, with Go's wrap-around of the field's width) — for any
+number of files, quantities that appear or disappear from file to file included (the class of KF-C20-3, fixed).
+Proved through the accumulator's invariant (FitProps/ActivityAccLemmas.lean: `Inv`, `WInv`): between two files the
+entry of a key holds the sum of the last values of the earlier files; inside a file `last` follows the most recent
+value met. Together with `C20_combine_order` / `C20_combine_sort` this is the combine clause of the property. -/
+theorem C20_combine_accumulate (fits : List (List Message)) (body : List Message) (tr : List Trailer)
+    (h : combine fits = .ok body tr) : expectedBody fits = some body :=
+  combine_accumulate fits body tr h
+
+/-- what `expectedBody` asks of one field, spelled out: for a valid accumulable field `f` of a message numbered `mn` the
+expected value is the fold `((v + l₀) + l₁) + …` over the earlier files' last values of the key (files without the key
+are skipped), and a field that is not accumulable (or invalid) stays as it is -/
+theorem C20_combine_closed_form (earlier : List (List Message)) (mn : Nat) (f : Field) :
+    continueAcc earlier mn f =
+      if accumulable f then
+        (earlier.foldl (fun acc file => match acc, lastIn mn (fieldNumOf f) file with
+            | some v, some l => sumValue v l
+            | some v, none => some v
+            | none, _ => none) (some f.value)).map fun v => { f with value := v }
+      else some f := by
+  unfold continueAcc
+  cases accumulable f
+  · simp
+  · simp only [Bool.not_true, Bool.false_eq_true, ↓reduceIte]
+    congr 2
 
 /-! ## aggregator (used by the combiner on sessions and split summaries) -/
 
@@ -319,5 +342,17 @@ example : recDists demo = [0, 100, 100, 250] := by decide
 example : (recDists demo).Pairwise (· ≤ ·) := by decide
 example : ((conceal 100 100 demo).map posFree) = [true, false, false, true] := by decide
 example : (reduceByDistance 150 demo).map dist = [0, 250] := by decide
+
+
+/-- two activities, the second created later, each with distances 0, 100 (and the first ending at 100): combined, the
+second one's records read 100, 200 -/
+def demoFile (t d0 d1 : Nat) : List Message :=
+  [{ num := mnFileId, devFields := [], fields := [{ base := some { num := fnFileIdTimeCreated, baseType := btUint32 }, value := .uint32 t }] },
+   mkRec t 1 2 d0, mkRec (t + 10) 3 4 d1,
+   { num := mnSession, devFields := [], fields := [{ base := some { num := fnSessionStartTime, baseType := btUint32 }, value := .uint32 t }] }]
+
+example : (match combine [demoFile 5000 0 100, demoFile 1000 0 100] with
+    | .ok body _ => (body.filter isRecord).map dist
+    | _ => []) = [0, 100, 100, 200] := by decide +kernel
 
 end Fit.C20
